@@ -133,6 +133,25 @@ func evalStringExpr(pk *packages.Package, e ast.Expr, depth int) (string, bool) 
 		a, ok1 := evalStringExpr(pk, x.X, depth+1)
 		b, ok2 := evalStringExpr(pk, x.Y, depth+1)
 		return a + b, ok1 && ok2
+	case *ast.CallExpr:
+		// strconv.Itoa / strconv.FormatInt(…, 10) of an integer constant, string(constant string)
+		if fn, ok := typeutilCallee(pk, x).(*types.Func); ok && fn.Pkg() != nil && fn.Pkg().Path() == "strconv" && len(x.Args) >= 1 {
+			tv := pk.TypesInfo.Types[x.Args[0]]
+			if tv.Value == nil || tv.Value.Kind() != constant.Int {
+				return "", false
+			}
+			switch fn.Name() {
+			case "Itoa":
+				return tv.Value.ExactString(), true
+			case "FormatInt", "FormatUint":
+				if len(x.Args) == 2 {
+					if b := pk.TypesInfo.Types[x.Args[1]]; b.Value != nil && b.Value.ExactString() == "10" {
+						return tv.Value.ExactString(), true
+					}
+				}
+			}
+		}
+		return "", false
 	case *ast.Ident:
 		obj := pk.TypesInfo.Uses[x]
 		v, ok := obj.(*types.Var)
@@ -213,3 +232,25 @@ func pkgVarAssigned(pk *packages.Package, v *types.Var) bool {
 }
 
 func pkgOf(c *core.Ctx, rel string) *packages.Package { return c.P.Pkg(rel) }
+
+// typeutilCallee resolves the object a call expression calls (function, method or builtin) through the type
+// information, nil for calls of function values and conversions.
+func typeutilCallee(pk *packages.Package, call *ast.CallExpr) types.Object {
+	fun := ast.Unparen(call.Fun)
+	switch f := fun.(type) {
+	case *ast.IndexExpr:
+		fun = f.X
+	case *ast.IndexListExpr:
+		fun = f.X
+	}
+	switch f := fun.(type) {
+	case *ast.Ident:
+		return pk.TypesInfo.Uses[f]
+	case *ast.SelectorExpr:
+		if sel := pk.TypesInfo.Selections[f]; sel != nil {
+			return sel.Obj()
+		}
+		return pk.TypesInfo.Uses[f.Sel]
+	}
+	return nil
+}
